@@ -20,6 +20,9 @@ type c15Case struct {
 	Stat statCase
 	Perm []int // drives the permutation of benchmark lines within each block
 	Reps int   // repetitions (GOMAXPROCS cycles through a fixed list)
+	// another invocation run in between (same files, different -alpha/-confidence/-filter):
+	// the output must not depend on which command lines ran earlier in the process
+	OtherAlpha, OtherConfidence float64
 }
 
 var c15Procs = []int{1, 2, 3, 4, 8, 16, 32}
@@ -108,6 +111,27 @@ func c15Check(c c15Case) (v vcase.Verdict) {
 		}
 	}
 	runtime.GOMAXPROCS(old)
+	// an unrelated invocation in between must leave no trace
+	{
+		oc := c.Stat
+		oc.Alpha, oc.Confidence = c.OtherAlpha, c.OtherConfidence
+		oc.FilterText, oc.Filter = "", nil
+		for _, f := range formats {
+			if _, _, rerr := runStat(append(oc.flags(f), paths...)); rerr != nil {
+				v.Failf("benchstat error: %v", rerr)
+				return
+			}
+		}
+		for fi, f := range formats {
+			o, e, _ := runStat(append(c.Stat.flags(f), paths...))
+			if o != first[fi].o || e != first[fi].e {
+				v.Failf("%s output of %q changed after an unrelated invocation with flags %q ran in the same process\n--- before\n%s\n--- after\n%s",
+					f, c.Stat.flags(f), oc.flags(f), clipS(first[fi].o), clipS(o))
+				return
+			}
+		}
+		v.Label("interleaved_invocation")
+	}
 	tables, perr := parseStatCSV(first[1].o)
 	if perr != nil {
 		v.Failf("%v", perr)
@@ -190,6 +214,8 @@ func c15Gen(t *rapid.T) c15Case {
 		Stat: genStatCase(t),
 		Perm: rapid.SliceOfN(rapid.IntRange(0, 1000), 12, 12).Draw(t, "perm"),
 		Reps: vcase.Scale(6, 24),
+		OtherAlpha:      rapid.SampledFrom([]float64{0.5, 1, 0.001, 0.2}).Draw(t, "otheralpha"),
+		OtherConfidence: rapid.SampledFrom([]float64{0.5, 0.99, 0.8}).Draw(t, "otherconf"),
 	}
 }
 
